@@ -28,7 +28,7 @@ RULE = ("cases = (class of core_defs | tests/test_msg_defs | generated fixture) 
         "(class, fill mode, seed)")
 ASSUMPTIONS = ["strings with an embedded NUL are excluded (NUL terminates the char-array domain)",
                "values are written through the validated API on a fresh instance, so bytes after a terminator are zero"]
-REQUIRE = {"instances": 3000, "roundtrips_compared": 15000, "copies_checked": 3000, "version_checks": 500}
+REQUIRE = {"earlier_exports_with_other_json_options": 10, "instances": 3000, "roundtrips_compared": 15000, "copies_checked": 3000, "version_checks": 500}
 CASE_TIMEOUT = 120
 MODES = ["random", "min", "max", "zero", "floats", "str_empty", "str_full", "ascii", "bytes00", "bytesff", "random", "random"]
 FLOATS32 = [-0.0, float("nan"), 1.401298464324817e-45, 3.4028234663852886e38, -3.4028234663852886e38, 1.1754943508222875e-38, 0.1]
@@ -215,6 +215,22 @@ def run_case(case, tier):
     rng = random.Random(case["seed"])
     random.seed(case["seed"])
     namesakes = {c.__name__: c for c in _SRC.get({"twin": "fixture", "fixture": "twin"}.get(case["source"], ""), [])}
+    if case.get("n", 0) % 3 == 1 and mine:
+        # an earlier, unrelated export with other json.dumps options (strict JSON for a browser, sorted keys, ...) in this
+        # process: options given to one call are that call's business only
+        try:
+            z = next((c for c in mine if ctypes.sizeof(c)), mine[0])()
+            z.to_json(allow_nan=False, sort_keys=True)
+            z.to_json(minify=True, allow_nan=False, ensure_ascii=True)
+            if issubclass(type(z), MessageData) and getattr(type(z), "type_id", -1) >= 0:
+                hz = get_header_cls(False)()
+                hz.msg_type = type(z).type_id
+                hz.num_data_bytes = ctypes.sizeof(z)
+                Message(hz, z).to_json(allow_nan=False, sort_keys=True)
+                Message(hz, z).to_json(minify=True, allow_nan=False)
+            bump("earlier_exports_with_other_json_options")
+        except Exception as e:
+            V.append({"mech": "export_with_json_options_raises", "detail": f"{type(e).__name__}: {str(e)[:200]}"})
     for cls in mine:
         if cls.__name__ in namesakes:
             # a class of the same name with other fields (from the other definition file) is converted first in this process
